@@ -6,6 +6,8 @@
 //!  3 id text LOAD         an unmutated example: must load
 //!  4 P chars ORACLE LOAD4 one scalar offered to one of the modelled string parsers through the real loader
 //!  5 ast NAME             `captive-portal: <ast>`: parse_string / type_to_name
+//!  7 F ast ORACLES RESULT a whole fragment (F = 1 dns-routes entry, 2 `prefixes` entry, 3 pref64) against the model's
+//!                         fragment parser; ast carries its strings (see `put_full_ast`, `frag_case`)
 //!  6 text what a b        a document NOT run: it expands more than 2^17 pool addresses (see `screen`)
 //! where
 //!  text   = length-prefixed UTF-8 octets
@@ -938,6 +940,229 @@ fn put_y(t: &mut Toks, y: &Y) {
     }
 }
 
+
+// ---------------------------------------------------------------- fragment cases (kind 7)
+/// AST with its strings: 0 Real | 1 Integer | 2 n chars | 3 b | 4 n elem* | 5 n (key value)* | 7 Null | 8 Bad
+fn put_full_ast(t: &mut Toks, y: &yaml_rust::Yaml, strings: &mut Vec<String>) {
+    use yaml_rust::Yaml::*;
+    match y {
+        Real(_) => {
+            t.n(0);
+        }
+        Integer(_) => {
+            t.n(1);
+        }
+        String(st) => {
+            t.n(2).n(st.chars().count() as u64);
+            for c in st.chars() {
+                t.n(c as u64);
+            }
+            strings.push(st.clone());
+        }
+        Boolean(b) => {
+            t.n(3).b(*b);
+        }
+        Array(a) => {
+            t.n(4).n(a.len() as u64);
+            for x in a {
+                put_full_ast(t, x, strings);
+            }
+        }
+        Hash(h) => {
+            t.n(5).n(h.len() as u64);
+            for (k, v) in h {
+                put_full_ast(t, k, strings);
+                put_full_ast(t, v, strings);
+            }
+        }
+        Alias(_) | BadValue => {
+            t.n(8);
+        }
+        Null => {
+            t.n(7);
+        }
+    }
+}
+
+fn full_ast_from_tokens(c: &mut Cur, depth: u32) -> Option<Y> {
+    if depth > 64 {
+        return None;
+    }
+    Some(match c.n()? {
+        0 => Y::Real("2.5".into()),
+        1 => Y::Int(1),
+        2 => Y::Str(c.chars()?),
+        3 => Y::Bool(c.n()? != 0),
+        4 => {
+            let n = c.n()?;
+            let mut v = vec![];
+            for _ in 0..n {
+                v.push(full_ast_from_tokens(c, depth + 1)?);
+            }
+            Y::Arr(v)
+        }
+        5 => {
+            let n = c.n()?;
+            let mut v = vec![];
+            for _ in 0..n {
+                let k = full_ast_from_tokens(c, depth + 1)?;
+                let x = full_ast_from_tokens(c, depth + 1)?;
+                v.push((k, x));
+            }
+            Y::Hash(v)
+        }
+        7 => Y::Null,
+        _ => Y::Bad,
+    })
+}
+
+fn frag_doc(f: u64, y: &Y) -> String {
+    let a = yamlgen::render(y);
+    match f {
+        1 => format!("dns-routes: [{}]", a),
+        2 => format!("router-advertisements: {{eth0: {{prefixes: [{}]}}}}", a),
+        _ => format!("router-advertisements: {{eth0: {{pref64: {}}}}}", a),
+    }
+}
+
+fn gen_frag(r: &mut Rng, f: u64) -> Y {
+    let scalar = |r: &mut Rng| -> Y {
+        match r.below(10) {
+            0 => Y::Null,
+            1 => Y::Int(5),
+            2 => Y::Bool(true),
+            3 => Y::Arr(vec![]),
+            4 => Y::Hash(vec![]),
+            5 => Y::Real("1.5".into()),
+            _ => yamlgen::s(r.pick(&["forward", "forge-nxdomain", "other", "", "5m", "2001:db8::/64", "64:ff9b::/96", "64:ff9b::/33", "192.0.2.0/24", "2001:db8::/129", "x"])),
+        }
+    };
+    let ips = |r: &mut Rng| -> Y {
+        match r.below(6) {
+            0 => Y::Null,
+            1 => yamlgen::s("192.0.2.53"),
+            2 => Y::Arr(vec![]),
+            3 => Y::Arr(vec![yamlgen::s("192.0.2.53"), yamlgen::s("2001:db8::53")]),
+            4 => Y::Arr(vec![yamlgen::s(r.pick(&["bad", "$self4", "$self6", ""]))]),
+            _ => Y::Arr(vec![yamlgen::s(r.pick(&["192.0.2.53", "2001:db8::53"]))]),
+        }
+    };
+    let keys: &[&str] = match f {
+        1 => &["domain-suffixes", "dns-servers", "type"],
+        2 => &["prefix", "prefix", "on-link", "autonomous", "valid", "preferred"],
+        _ => &["prefix", "prefix", "lifetime"],
+    };
+    if r.chance(1, 12) {
+        return scalar(r);
+    }
+    let mut h = vec![];
+    for _ in 0..r.below(5) {
+        let k = if r.chance(1, 14) { "bogus" } else { *r.pick(keys) };
+        if r.chance(1, 25) {
+            h.push((Y::Int(3), scalar(r)));
+            continue;
+        }
+        let v = if r.chance(1, 9) {
+            scalar(r)
+        } else {
+            match k {
+                "domain-suffixes" => Y::Arr((0..r.below(3)).map(|_| yamlgen::s(r.pick(&["", "example.com", "invalid"]))).collect()),
+                "dns-servers" => ips(r),
+                "type" => yamlgen::s(r.pick(&["forward", "forge-nxdomain", "forward", "other"])),
+                "prefix" => yamlgen::s(r.pick(&["2001:db8::/64", "64:ff9b::/96", "64:ff9b::/32", "64:ff9b::/33", "64:ff9b::/0", "::/128", "::/129", "192.0.2.0/24", "2001:db8::", "2001:db8::/x"])),
+                "on-link" | "autonomous" => Y::Bool(r.chance(1, 2)),
+                "valid" | "preferred" | "lifetime" => {
+                    if r.chance(1, 2) {
+                        Y::Int(600)
+                    } else {
+                        yamlgen::s(r.pick(&["5m", "1h30m", "s", "99999999999999999999", "1x"]))
+                    }
+                }
+                _ => scalar(r),
+            }
+        };
+        h.push((yamlgen::s(k), v));
+    }
+    Y::Hash(h)
+}
+
+/// 7 F ast ORACLES RESULT;  ORACLES = k (n chars ORACLE)*;  RESULT = 1 | 2 | 3 (not YAML) |
+/// 0 n v*  (F=1: the routes as (type, nservers); F=2: prefix lengths; F=3: PREF64 lengths) SERVE
+fn frag_case(f: u64, y: &Y, stats: &mut Stats) -> Toks {
+    let text = frag_doc(f, y);
+    let mut t = Toks::new();
+    t.n(7).n(f);
+    let parsed = yaml_rust::YamlLoader::load_from_str(&frag_doc(f, &Y::Str("@@".into()))).ok();
+    let docs = yaml_rust::YamlLoader::load_from_str(&text);
+    let node = match (&docs, parsed) {
+        (Ok(d), Some(_)) if d.len() == 1 => match f {
+            1 => d[0]["dns-routes"][0].clone(),
+            2 => d[0]["router-advertisements"]["eth0"]["prefixes"][0].clone(),
+            _ => d[0]["router-advertisements"]["eth0"]["pref64"].clone(),
+        },
+        _ => yaml_rust::Yaml::BadValue,
+    };
+    let mut strings = vec![];
+    put_full_ast(&mut t, &node, &mut strings);
+    // the address parser's answer for the part before the first '/' of every string
+    let mut heads: Vec<String> = strings.iter().map(|st| st.split('/').next().unwrap_or("").to_string()).collect();
+    heads.sort();
+    heads.dedup();
+    t.n(heads.len() as u64);
+    for st in &heads {
+        t.n(st.chars().count() as u64);
+        for c in st.chars() {
+            t.n(c as u64);
+        }
+        put_oracle(&mut t, 0, st);
+    }
+    if docs.is_err() {
+        t.n(3);
+        stats.bump("frag.not-yaml");
+        return t;
+    }
+    let rt = new_rt();
+    let (class, shared, mut msg) = load(&rt, &text);
+    t.n(class);
+    let mut sv = 0;
+    if let Some(shared) = shared {
+        {
+            let cfg = shared.try_read().expect("config lock");
+            match f {
+                1 => {
+                    t.n(cfg.dns_routes.len() as u64);
+                    for r in &cfg.dns_routes {
+                        match &r.dest {
+                            dns::verif::Handler::Forward(v) => t.n(0).n(v.len() as u64),
+                            _ => t.n(1).n(0),
+                        };
+                    }
+                }
+                2 => {
+                    let v: Vec<u64> = cfg.ra.interfaces.iter().flat_map(|i| i.prefixes.iter().map(|p| p.prefixlen as u64)).collect();
+                    t.n(v.len() as u64);
+                    for l in v {
+                        t.n(l);
+                    }
+                }
+                _ => {
+                    let v: Vec<u64> = cfg.ra.interfaces.iter().filter_map(|i| i.pref64.as_ref().map(|p| p.prefixlen as u64)).collect();
+                    t.n(v.len() as u64);
+                    for l in v {
+                        t.n(l);
+                    }
+                }
+            }
+        }
+        let (s2, m) = serve(&rt, &shared);
+        sv = s2;
+        msg = m;
+        t.n(sv);
+    }
+    note_outcome(stats, &format!("frag{}", f), class, sv, &msg);
+    t
+}
+
 // ---------------------------------------------------------------- replay
 pub struct Cur<'a>(pub &'a [u64], pub usize);
 impl<'a> Cur<'a> {
@@ -987,6 +1212,11 @@ fn replay_line(toks: &[u64], stats: &mut Stats) -> Option<Toks> {
         5 => {
             let y = ast_from_tokens(&mut c, 0)?;
             Some(name_case(&y, stats))
+        }
+        7 => {
+            let f = c.n()?;
+            let y = full_ast_from_tokens(&mut c, 0)?;
+            Some(frag_case(f, &y, stats))
         }
         _ => None,
     }
@@ -1052,6 +1282,12 @@ pub fn run(args: &Args, out: &mut dyn Write) -> Stats {
         let p = if p == 1 || r.chance(1, 8) { 1 } else { p };
         let st = gen_scalar(&mut r, p);
         writeln!(out, "{}", scalar_case(p, &st, &mut stats).0).unwrap();
+    }
+    // whole fragments (dns route, RA prefix entry, pref64) against the model's fragment parsers: 10 %
+    for i in 0..n * 10 / 100 {
+        let f = 1 + (i % 3);
+        let y = gen_frag(&mut r, f);
+        writeln!(out, "{}", frag_case(f, &y, &mut stats).0).unwrap();
     }
     // type names: 5 %
     for _ in 0..n * 5 / 100 {
